@@ -17,6 +17,8 @@ import (
 type Gen struct {
 	guarded        map[string][2]string // heap var of guarded field -> (struct type key, lock field name)
 	typeInvQ       map[string][]*Clause
+	abruptRely     map[string][]*Clause
+	abruptHavoc    map[string]bool
 	implOf         map[*ssa.Function]*Contract // concrete method -> interface contract it is checked against
 	typeInv        map[string]*ssa.Function    // typeKey -> invariant (heap dependent, re-assumed after unknown code)
 	createInv      map[string]*ssa.Function
@@ -170,6 +172,9 @@ func loadAll(repo string) (*Gen, error) {
 		for _, cl := range c.EnsuresPanic {
 			bind(cl)
 		}
+		for _, cl := range c.EnsuresAbrupt {
+			bind(cl)
+		}
 		for _, cl := range c.Assigns {
 			bind(cl)
 		}
@@ -251,8 +256,11 @@ func loadAll(repo string) (*Gen, error) {
 			g.guarded[h] = [2]string{gd[1][:j], gd[2][k+1:]}
 		}
 	}
+	g.abruptHavoc = map[string]bool{}
+	resolveTF(cs.AbruptHavoc, g.abruptHavoc)
+	g.abruptRely = map[string][]*Clause{}
 	g.typeInvQ = map[string][]*Clause{}
-	for _, cl := range cs.TypeInvQ {
+	for _, cl := range append(append([]*Clause{}, cs.TypeInvQ...), cs.AbruptRely...) {
 		sp := g.pkgs[cl.Owner.PkgDir]
 		if sp == nil || cl.FnName == "" {
 			continue
@@ -267,6 +275,10 @@ func loadAll(repo string) (*Gen, error) {
 		var t types.Type = obj.Type()
 		if strings.HasPrefix(cl.ObsType, "*") {
 			t = types.NewPointer(t)
+		}
+		if cl.Kind == "abruptrely" {
+			g.abruptRely[typeKey(t)] = append(g.abruptRely[typeKey(t)], cl)
+			continue
 		}
 		g.typeInvQ[typeKey(t)] = append(g.typeInvQ[typeKey(t)], cl)
 	}
